@@ -9,14 +9,14 @@ func applyOps(tag string, cur *Mast, md *symModel, cfg *RemoteConfig, K int, nop
 		case 0:
 			k, v := verifNondetU64("k"), verifNondetU64("v")
 			err := cur.Insert(vctx, symKey{k}, v)
-			verifAssert(tag+".insert.err", err == nil)
+			verifAssert("C01."+tag+".insert.err", err == nil)
 			md.put(k, v)
 		case 1:
 			k, v := verifNondetU64("k"), verifNondetU64("v")
 			f, mv := md.lookup(k)
 			expectOK := verifAnd(f, mv == v)
 			err := cur.Delete(vctx, symKey{k}, v)
-			verifAssert(tag+".delete.result", (err == nil) == expectOK)
+			verifAssert("C01."+tag+".delete.result", (err == nil) == expectOK)
 			if err == nil {
 				md = md.clone()
 				md.del(k)
@@ -24,15 +24,18 @@ func applyOps(tag string, cur *Mast, md *symModel, cfg *RemoteConfig, K int, nop
 			}
 		case 2:
 			r, err := cur.MakeRoot(vctx)
-			verifAssert(tag+".makeroot.err", err == nil)
+			verifAssert("C01."+tag+".makeroot.err", err == nil)
 			if err == nil {
 				cur, err = r.LoadMast(vctx, cfg)
-				verifAssert(tag+".load.err", err == nil)
+				verifAssert("C01."+tag+".load.err", err == nil)
 			}
 		case 3:
 			c, err := cur.Clone(vctx)
-			verifAssert(tag+".clone.err", err == nil)
+			verifAssert("C01."+tag+".clone.err", err == nil)
 			cur = &c
+		case 4:
+			_, err := cur.MakeRoot(vctx)
+			verifAssert("C01."+tag+".makeroot.err", err == nil)
 		}
 	}
 	return cur, md, deleted
@@ -47,11 +50,11 @@ func HarnessC04a() {
 	st := newVStore("s1")
 	cfg := symConfig(st, nil)
 	cur, err := NewRoot(&CreateRemoteOptions{BranchFactor: bf}).LoadMast(vctx, cfg)
-	verifAssert("new.err", err == nil)
+	verifAssert("C01.new.err", err == nil)
 	md := &symModel{}
 	cur, md, deleted := applyOps("h", cur, md, cfg, K, verifBound("NOPS"))
 	r, err := cur.MakeRoot(vctx)
-	verifAssert("makeroot.err", err == nil)
+	verifAssert("C01.makeroot.err", err == nil)
 	if err != nil {
 		return
 	}
@@ -73,16 +76,16 @@ func HarnessC04a() {
 
 	// reference history: ascending inserts of the same content into a fresh tree, in a fresh store
 	ks, vs, err := iterAll(cur)
-	verifAssert("iter.err", err == nil)
+	verifAssert("C01.iter.err", err == nil)
 	st2 := newVStore("s2")
 	ref, err := NewRoot(&CreateRemoteOptions{BranchFactor: bf}).LoadMast(vctx, symConfig(st2, nil))
-	verifAssert("ref.new.err", err == nil)
+	verifAssert("C01.ref.new.err", err == nil)
 	for i := range ks {
 		err := ref.Insert(vctx, symKey{ks[i]}, vs[i])
-		verifAssert("ref.insert.err", err == nil)
+		verifAssert("C01.ref.insert.err", err == nil)
 	}
 	r2, err := ref.MakeRoot(vctx)
-	verifAssert("ref.makeroot.err", err == nil)
+	verifAssert("C01.ref.makeroot.err", err == nil)
 	if err != nil {
 		return
 	}
